@@ -176,6 +176,7 @@ def check_class(prog, cd, rep, cname, amap, items, c):
     sn = f.self_name or "self"
     fq = f"{cname}.{f.name}"
     adder_channel_rules(rep, mod, fq, f, amap, sn)
+    rep.attempt(bulk_delegation, prog, rep, cname, c, f)
     # 5 container-kind: decoder installs
     u = cd.units.get(cname)
     if u is None:
@@ -242,6 +243,98 @@ def check_class(prog, cd, rep, cname, amap, items, c):
     else:
         rep.fail("encoding-order", u.writer.module.path.name, wfq, u.writer.node, f"the writer does not emit the whole `{amap}` followed by `{items}` in list order", construct=f"{wfq} order")
     return n_methods
+
+
+# bulk operations of the channel-mapped classes, confirmed by reading (class -> (method, kind, what it does per item, index of
+# the items parameter, index of the channels parameter | "pairs" (the items ARE (channel, item) pairs) | None))
+BULK = {
+    "ForcePlatformsCalibrationDataBlock": [("__init__", "method", "add", 0, None), ("add_platforms", "method", "add", 0, 1),
+                                           ("remove_platforms", "method", "remove", 0, None), ("platforms", "setter", "add", 0, "pairs")],
+    "ForcePlatformsDataBlock": [("platforms", "setter", "add", 0, None)],
+    "EMG": [],
+}
+
+
+def bulk_delegation(prog, rep, cname, c, adder, rule="bulk-delegation"):
+    """'bulk add/remove and bulk assignment': each bulk operation walks its items and hands EACH to the single-item operation
+    (which carries the channel rules) - an explicit channel that came with the item is passed on, not dropped.  Path summaries
+    of the method and of its loop body."""
+    from ..facts import flat_facts, path_returns
+    mod = c.module.path.name
+    n = 0
+    # the single-item remover: the method that deletes from both lists
+    a_, b_ = EXPECTED[cname]
+    removers = [f for f in c.all_funcs() if f.kind == "method" and any(k in ("del", "pop", "remove") for k, _, _ in list_ops(f.node, b_, f.self_name or "self"))]
+    for mname, kind, what, i_items, i_chan in BULK[cname]:
+        f = prog.lookup_method(c, mname, kind) if kind != "method" else c.get(mname)
+        fq = f"{cname}.{mname}" + (".setter" if kind == "setter" else "")
+        if f is None:
+            raise AnalysisError(f"anchor vanished: bulk operation {fq}")
+        sn = f.self_name or "self"
+        if len(f.params) <= i_items:
+            raise AnalysisError(f"{fq}: parameter list changed")
+        items_p = f.params[i_items]
+        chan_p = f.params[i_chan] if isinstance(i_chan, int) and len(f.params) > i_chan else None
+        single = {adder.name} if what == "add" else {r.name for r in removers}
+        if not single:
+            raise AnalysisError(f"{cname}: no single-item {what} method found")
+        n += 1
+        bad = False
+        for pe in path_returns(f.node):
+            if pe.kind == "raise":
+                continue
+            fl = flat_facts(pe.guards)
+            if any(isinstance(t, ast.Name) and t.id == items_p and not pol for t, pol in fl):
+                continue  # nothing to process
+            loops = [e.value for e in pe.effects if isinstance(e, ast.Expr) and isinstance(e.value, ast.Call) and norm(e.value.func) == "__loop__" and hasattr(e, "_loop")
+                     and any(isinstance(x, ast.Name) and x.id == items_p for x in ast.walk(e.value.args[0]))]
+            loop_nodes = [e._loop for e in pe.effects if isinstance(e, ast.Expr) and isinstance(e.value, ast.Call) and norm(e.value.func) == "__loop__" and hasattr(e, "_loop")
+                          and any(isinstance(x, ast.Name) and x.id == items_p for x in ast.walk(e.value.args[0]))]
+            direct = [x for e in pe.effects for x in ast.walk(e) if isinstance(x, ast.Call) and isinstance(x.func, ast.Attribute) and x.func.attr in single
+                      and isinstance(x.func.value, ast.Name) and x.func.value.id == sn]
+            if not loop_nodes:
+                if direct:
+                    continue  # handed over in some other way (e.g. the whole list to another bulk method)
+                rep.fail(rule, mod, fq, pe.node or f.node, f"a path of {fq} never walks `{items_p}`: the items given are silently not {'added' if what == 'add' else 'removed'}",
+                         construct=f"{fq} items not processed")
+                bad = True
+                continue
+            chan_given = chan_p is not None and any(isinstance(t, ast.Name) and t.id == chan_p and pol for t, pol in fl)
+            for hdr, L in zip(loops, loop_nodes):
+                tnames = [x.id for x in ast.walk(L.target) if isinstance(x, ast.Name)]
+                hdr_has_chan = chan_p is not None and any(isinstance(x, ast.Name) and x.id == chan_p for x in ast.walk(hdr.args[0]))
+                fake = ast.FunctionDef(name="_body", args=ast.arguments(posonlyargs=[], args=[], kwonlyargs=[], kw_defaults=[], defaults=[]), body=L.body, decorator_list=[], lineno=L.lineno, col_offset=0)
+                for bp in path_returns(fake):
+                    if bp.kind == "raise":
+                        continue
+                    calls = [x for e in bp.effects for x in ast.walk(e) if isinstance(x, ast.Call) and isinstance(x.func, ast.Attribute) and x.func.attr in single
+                             and isinstance(x.func.value, ast.Name) and x.func.value.id == sn]
+                    if not calls:
+                        rep.fail(rule, mod, fq, L, f"an iteration of the loop over `{items_p}` ends without calling {sn}.{'/'.join(sorted(single))}(): that item is silently not {'added' if what == 'add' else 'removed'}",
+                                 construct=f"{fq} item skipped")
+                        bad = True
+                        continue
+                    call = calls[0]
+                    a0 = call.args[0] if call.args else (call.keywords[0].value if call.keywords else None)
+                    if not (isinstance(a0, ast.Name) and a0.id.lstrip("?") in tnames):
+                        rep.fail(rule, mod, fq, call, f"`{norm(call)}` does not hand over the loop's item", construct=f"{fq} item argument")
+                        bad = True
+                        continue
+                    if what == "add":
+                        cparam = adder.params[1] if len(adder.params) > 1 else None
+                        a1 = call.args[1] if len(call.args) > 1 else next((k.value for k in call.keywords if k.arg == cparam), None)
+                        need = hdr_has_chan or i_chan == "pairs"
+                        if need and not (isinstance(a1, ast.Name) and a1.id.lstrip("?") in tnames and a1.id != a0.id):
+                            rep.fail(rule, mod, fq, call, f"the channel that comes with each item is not passed to {adder.name}() (`{norm(call)}`): an explicit channel is dropped and an automatic one assigned",
+                                     construct=f"{fq} channel dropped")
+                            bad = True
+                        elif chan_given and not hdr_has_chan:
+                            rep.fail(rule, mod, fq, L, f"on the path where `{chan_p}` is given the loop walks `{norm(hdr.args[0])}` only: the explicit channels are ignored",
+                                     construct=f"{fq} channels ignored")
+                            bad = True
+        if not bad:
+            rep.ok(rule, f"{fq}: every item is handed to {'/'.join(sorted(single))}()" + (" with its channel" if i_chan is not None else ""), nontrivial=True)
+    return n
 
 
 def adder_channel_rules(rep, mod, fq, f, amap, sn):
